@@ -200,9 +200,11 @@ namespace xsimd
                 //
                 // https://docs.kernel.org/admin-guide/hw-vuln/gather_data_sampling.html
 
+                // Without OSXSAVE the OS cannot have enabled the YMM / ZMM / opmask state
+                // (XCR0 is not even readable), so only the SSE state may be assumed.
                 unsigned sse_state_os_enabled = 1;
-                unsigned avx_state_os_enabled = 1;
-                unsigned avx512_state_os_enabled = 1;
+                unsigned avx_state_os_enabled = 0;
+                unsigned avx512_state_os_enabled = 0;
 
                 // OSXSAVE: A value of 1 indicates that the OS has set CR4.OSXSAVE[bit
                 // 18] to enable XSETBV/XGETBV instructions to access XCR0 and
@@ -224,7 +226,7 @@ namespace xsimd
                 ssse3 = regs1[2] >> 9 & sse_state_os_enabled;
                 sse4_1 = regs1[2] >> 19 & sse_state_os_enabled;
                 sse4_2 = regs1[2] >> 20 & sse_state_os_enabled;
-                fma3_sse42 = regs1[2] >> 12 & sse_state_os_enabled;
+                fma3_sse42 = regs1[2] >> 12 & avx_state_os_enabled; // FMA3 is VEX-encoded: needs the AVX state
 
                 avx = regs1[2] >> 28 & avx_state_os_enabled;
                 fma3_avx = avx && fma3_sse42;
